@@ -134,8 +134,28 @@ def injector(env, rec, arrivals, make_packet, target, on_arrival):
     return departed
 
 
+HANG_LIMIT = 30
+
+
 def run_env(env, rec, until=None, max_steps=200000):
     """Run to exhaustion (or `until`); an escaping exception becomes an X event, quiescence a Q event."""
+    n = 0
+    # a scenario that stops making progress inside one kernel step (an element spinning without yielding) must end
+    # as an observable event, not hang the check
+    import signal
+
+    def _hang(signum, frame):
+        raise TimeoutError("no progress for %s s of wall time" % HANG_LIMIT)
+    old = signal.signal(signal.SIGALRM, _hang)
+    signal.setitimer(signal.ITIMER_REAL, HANG_LIMIT)
+    try:
+        return _run_env(env, rec, until, max_steps)
+    finally:
+        signal.setitimer(signal.ITIMER_REAL, 0)
+        signal.signal(signal.SIGALRM, old)
+
+
+def _run_env(env, rec, until=None, max_steps=200000):
     n = 0
     try:
         while True:
